@@ -23,6 +23,8 @@ pub enum Regime {
     Small,
     /// |cost| up to 10^6 (dual pre-sum may clamp)
     Large,
+    /// values at the edges of i16 and their halves: sums land exactly on -32768 / 32767
+    Boundary,
 }
 
 impl BigramModel {
@@ -123,6 +125,7 @@ pub fn bigram_model(regime: Regime, max_ids: usize) -> BoxedStrategy<BigramModel
                         Regime::Tiny => c.rem_euclid(7) - 3,
                         Regime::Small => c.rem_euclid(3001) - 1500,
                         Regime::Large => c.rem_euclid(2_000_001) - 1_000_000,
+                        Regime::Boundary => [-32768, -32767, 32767, 32766, -16384, 16384, -16383, 16383, -1, 1, -32768, 0][c.rem_euclid(12) as usize],
                     }
                 };
                 let mut costs: Vec<(String, String, i32)> = vec![];
